@@ -106,8 +106,16 @@ def differential(paths: dict, root: str, compare=None) -> Outcome:
         second.flaky = first.symptom != "sf-hangs"
         second.slow_first = first.symptom == "sf-hangs"
         return second
-    if second.symptom == "sf-hangs" or first.symptom == "sf-hangs":
-        raise HarnessError(f"inconclusive: first run {first.symptom}, second run {second.symptom}\n{second.detail[:800]}")
-    # two different disagreements: report the second, mention the first
-    second.detail = f"(first run: {first.symptom}) " + second.detail
-    return second
+    # two different disagreements (e.g. a slow first run, then a mismatch): a third run decides. A symptom seen
+    # twice is reported; agreement on the third run accepts the case as flaky; three different outcomes are
+    # inconclusive (exit 2) - StreamFlow merely behaving differently never ends up there on its own.
+    sf3, ref3 = run.run_pair(paths, root, suffix="-3", sf_budget_scale=3.0)
+    third = classify(sf3, ref3, compare)
+    if third.symptom is None:
+        third.flaky = True
+        return third
+    if third.symptom in (first.symptom, second.symptom):
+        third.detail = f"(runs: {first.symptom}, {second.symptom}, {third.symptom}) " + third.detail
+        return third
+    raise HarnessError(f"inconclusive: three runs, three outcomes: {first.symptom}, {second.symptom}, {third.symptom}\n"
+                       f"{third.detail[:800]}")
